@@ -185,6 +185,6 @@ func runC20(p *Plan) {
 			first = k
 		}
 	}
-	p.Out.Op("RS " + strconv.Itoa(len(jobs)) + " " + strconv.Itoa(goroutines) + " " + strconv.Itoa(rounds) + " | " + strconv.Itoa(total) + " " + first)
+	p.Out.Op("RACE " + strconv.Itoa(len(jobs)) + " " + strconv.Itoa(goroutines) + " " + strconv.Itoa(rounds) + " | " + strconv.Itoa(total) + " " + first)
 	p.Out.Count("jobs")
 }
